@@ -171,28 +171,39 @@ class Tdf:
         return self
 
     def __enter__(self) -> "Tdf":
+        try:
+            self.handler: IO[bytes] = self.file_path.open(self._mode)
+        except BaseException:
+            self._mode = "rb"
+            raise
         self._inside_context = True
-        self.handler: IO[bytes] = self.file_path.open(self._mode)
 
-        self.signature = self.handler.read(len(self.SIGNATURE))
+        try:
+            self.signature = self.handler.read(len(self.SIGNATURE))
 
-        if self.signature != self.SIGNATURE:
-            raise Exception("Invalid TDF file")
+            if self.signature != self.SIGNATURE:
+                raise Exception("Invalid TDF file")
 
-        self.version = u32.bread(self.handler)
-        self.nEntries = i32.bread(self.handler)
+            self.version = u32.bread(self.handler)
+            self.nEntries = i32.bread(self.handler)
 
-        # pad 8 bytes
-        i32.skip(self.handler, 2)
+            # pad 8 bytes
+            i32.skip(self.handler, 2)
 
-        self.creation_date = BTSDate.bread(self.handler)
-        self.last_modification_date = BTSDate.bread(self.handler)
-        self.last_access_date = BTSDate.bread(self.handler)
+            self.creation_date = BTSDate.bread(self.handler)
+            self.last_modification_date = BTSDate.bread(self.handler)
+            self.last_access_date = BTSDate.bread(self.handler)
 
-        # pad 20 bytes
-        i32.skip(self.handler, 5)
+            # pad 20 bytes
+            i32.skip(self.handler, 5)
 
-        self.entries = [TdfEntry._build(self.handler) for _ in range(self.nEntries)]
+            self.entries = [
+                TdfEntry._build(self.handler) for _ in range(self.nEntries)
+            ]
+        except BaseException:
+            # a file that is refused leaves no open handle and no context behind
+            self.__exit__(None, None, None)
+            raise
 
         return self
 
